@@ -47,6 +47,13 @@ Definition kr_kill (k : killring) (text : str) (m : kr_mode) : res killring :=
       else Panic
   end.
 
+(* repeated(n): the last yank was inserted n times (repair of K2) *)
+Definition kr_repeated (k : killring) (n : nat) : killring :=
+  match kr_last k with
+  | KAYank size => mkKr (kr_slots k) (kr_cap k) (kr_index k) (KAYank (size * n)) (kr_killing k) (kr_newest k)
+  | _ => k
+  end.
+
 Definition kr_yank (k : killring) : killring * option str :=
   match nth_error (kr_slots k) (kr_index k) with
   | Some s => (mkKr (kr_slots k) (kr_cap k) (kr_index k) (KAYank (blen s)) (kr_killing k) (kr_newest k), Some s)
